@@ -105,7 +105,7 @@ def run(ctx):
         done += 1
         k = m['kind']; key = 'c04/' + r.name[2:]; w = r.code
         try: p = rs.only()
-        except AssertionError as e:
+        except (AssertionError, KeyError, ValueError, TypeError, IndexError, ZeroDivisionError, AttributeError) as e:
             ctx.ob(key + '/paths', False, 'branch-free', w, 'one path', str(e)); continue
         a = sym('a0'); c, s = fn('cos', a), fn('sin', a)
         if k == 'rot':
